@@ -86,7 +86,12 @@ impl MarkdownEventsReader {
                             }
                         }
                     } else {
-                        self.metadata = Some(text.to_string());
+                        // the metadata text can arrive in several pieces (one per CRLF line)
+                        self.metadata = Some(format!(
+                            "{}{}",
+                            self.metadata.take().unwrap_or_default(),
+                            text
+                        ));
                     }
                 }
                 Code(text) => {
